@@ -162,10 +162,13 @@ def _run(ctx, rng, big, events):
             ctx.op('reinit-base')
             basec.__init__('zmon-base')
             comps.__bases__ = cbases
-            for (bp, bn), bc in base_utils.items():
-                basec.registerUtility(bc, bp, bn)
-            for (brq, bp, bn), bc in base_adap.items():
-                basec.registerAdapter(bc, brq, bp, bn)
+            # (other components than before: what the old, discarded registries of the base held must not show)
+            for key_ in list(base_utils):
+                base_utils[key_] = newcomp()
+                basec.registerUtility(base_utils[key_], key_[0], key_[1])
+            for key_ in list(base_adap):
+                base_adap[key_] = newcomp()
+                basec.registerAdapter(base_adap[key_], key_[0], key_[1], key_[2])
             del events[:]
             ctx.count('base_reinitialisations')
             accept = [[]]
